@@ -47,7 +47,7 @@ Proof.
     { destruct (scan rs r) as [its|] eqn:Hr; [|discriminate]. injection H as <-.
       rewrite render_cons; cbn [render_item app]. rewrite (IH r its); [reflexivity|lia|exact Hr]. }
     destruct (find_opt rs t) as [ru|] eqn:Hf.
-    { destruct (nargs0 (r_act ru)).
+    { destruct (nargs0 (r_act ru) || nargs_opt (r_act ru)).
       - destruct (scan rs r) as [its|] eqn:Hr; [|discriminate]. injection H as <-.
         rewrite render_cons; cbn [render_item app]. rewrite (IH r its); [reflexivity|lia|exact Hr].
       - destruct r as [|v r']; [discriminate|].
@@ -76,8 +76,18 @@ Qed.
 (* ------------------------------------------------------------------ classification of well-formed items *)
 Lemma is1_find rs f : is1 rs f = true -> exists r, find_opt rs f = Some r /\ nargs0 (r_act r) = false.
 Proof. unfold is1. destruct (find_opt rs f) as [r|]; [|discriminate]. intros H. exists r. split; [reflexivity|]. apply negb_true_iff. exact H. Qed.
-Lemma is0_find rs f : is0 rs f = true -> exists r, find_opt rs f = Some r /\ nargs0 (r_act r) = true.
-Proof. unfold is0. destruct (find_opt rs f) as [r|]; [|discriminate]. eauto. Qed.
+Lemma is0_find rs f : is0 rs f = true ->
+  exists r, find_opt rs f = Some r /\ (nargs0 (r_act r) = true \/ (nargs0 (r_act r) = false /\ nargs_opt (r_act r) = true)).
+Proof.
+  unfold is0. destruct (find_opt rs f) as [r|]; [|discriminate]. intros H. exists r. split; [reflexivity|].
+  destruct (nargs0 (r_act r)); [auto|]. right. auto.
+Qed.
+Lemma isreq_find rs f : isreq rs f = true ->
+  exists r, find_opt rs f = Some r /\ nargs0 (r_act r) = false /\ nargs_opt (r_act r) = false.
+Proof.
+  unfold isreq. destruct (find_opt rs f) as [r|]; [|discriminate]. intros H. exists r. split; [reflexivity|].
+  apply andb_prop in H. destruct H as [H1 H2]. split; apply negb_true_iff; assumption.
+Qed.
 
 Lemma classify_exact rs f r : starts_dash f = true -> find_opt rs f = Some r -> classify rs f = COpt r f None.
 Proof.
@@ -193,7 +203,7 @@ Qed.
 Lemma loop_items rs : forall items n,
   forallb (wf_item rs) items = true ->
   no_ambig (classify_all rs (render items)) = true /\
-  loop false rs (classify_all rs (render items)) n = inr (fold_left (fun n it => item_effect rs it n) items n).
+  loop false rs (classify_all rs (render items)) n = (fold_left (fun n it => item_effect rs it n) items n, false).
 Proof.
   induction items as [|it items IH]; intros n Hwf.
   - split; reflexivity.
@@ -207,8 +217,16 @@ Proof.
       rewrite (classify_all_cons _ _ _ Hdd), (classify_exact _ _ _ Hd Hf).
       destruct (IH (item_effect rs (I0 f) n) Hrest) as [Ha Hl]. split.
       * unfold no_ambig in *. cbn. exact Ha.
-      * cbn [loop]. unfold consume. cbn [cluster]. rewrite Hn.
-        cbn [item_effect] in Hl |- *. rewrite Hf in Hl |- *. exact Hl.
+      * cbn [item_effect] in Hl |- *. rewrite Hf in Hl |- *.
+        cbn [loop]. unfold consume. cbn [cluster].
+        destruct Hn as [Hn|[Hn Ho]]; rewrite Hn.
+        -- exact Hl.
+        -- assert (Hsame : forall v, apply_rule false r f v n = apply_rule false r f "" n).
+           { intros v. unfold apply_rule. destruct (r_act r); try discriminate; reflexivity. }
+           destruct (classify_all rs (render items)) as [|[v c] r'] eqn:E; cbn [next_pos].
+           ++ rewrite Ho. exact Hl.
+           ++ destruct c; try (rewrite Ho; exact Hl).
+              rewrite Hsame. cbn [loop] in Hl. exact Hl.
     + (* IEq *)
       destruct (classify_eq _ _ _ Hit) as [r [Hf [Hn [Hc Hdd]]]].
       rewrite (classify_all_cons _ _ _ Hdd), Hc.
@@ -220,7 +238,7 @@ Proof.
       cbn [wf_item] in Hit. apply andb_prop in Hit. destruct Hit as [Hit Hv].
       apply andb_prop in Hit. destruct Hit as [Hit Hdd].
       apply andb_prop in Hit. destruct Hit as [H1 Hd]. apply negb_true_iff in Hdd. apply negb_true_iff in Hv.
-      destruct (is1_find _ _ H1) as [r [Hf Hn]].
+      destruct (isreq_find _ _ H1) as [r [Hf [Hn Ho]]].
       rewrite (classify_all_cons _ _ _ Hdd), (classify_exact _ _ _ Hd Hf).
       rewrite (classify_all_cons _ _ _ (not_dashdash_of_pos _ Hv)), (classify_pos _ _ Hv).
       destruct (IH (item_effect rs (ISep f v) n) Hrest) as [Ha Hl]. split.
@@ -257,5 +275,5 @@ Proof.
   intros H. injection H as <-.
   rewrite <- (scan_render _ _ _ _ (le_n _) Hs).
   destruct (loop_items (generic_rules ++ c_rules c) items (init_ns c) Hwf) as [Ha Hl].
-  unfold no_ambig in Ha. apply negb_true_iff in Ha. rewrite Ha. rewrite Hl. reflexivity.
+  unfold no_ambig in Ha. apply negb_true_iff in Ha. rewrite Ha. rewrite Hl. rewrite app_nil_r. reflexivity.
 Qed.
